@@ -312,6 +312,32 @@ func (e *Engine) apply(i int, op Op) *Fail {
 	m := e.M
 	s := e.S
 	switch op.K {
+	case "comb":
+		// op.N single-block writes, op.Len blocks apart, from block op.Off on: a file
+		// with that many extents (one FIEMAP call returns at most 1024)
+		if !m.Open || m.Mode != "RW" {
+			return nil
+		}
+		stride := op.Len
+		if stride < 2 {
+			stride = 2
+		}
+		done := int64(0)
+		for k := int64(0); k < op.N; k++ {
+			off := (op.Off + k*stride) * Blk
+			if off+Blk > m.Size {
+				break
+			}
+			data := payload(i, op.Seed, off, Blk)
+			if _, err := s.WriteAt(data, off); err != nil {
+				return fail("write|RW|error", fmt.Sprintf("comb write off=%d failed: %v", off, err), "C01")
+			}
+			m.Write(off, data)
+			m.Counter++
+			done++
+		}
+		e.tracef("comb from block %d, %d writes every %d blocks", op.Off, done, stride)
+		e.Labels["write:comb"]++
 	case "write":
 		off, length := op.Off*Sec, op.Len*Sec
 		if off+length > m.Size {
